@@ -178,12 +178,29 @@ def contact_summary(case):
 
 
 # ------------------------------------------------------------------------------------------------
+def set_edge(op, c1, c2, data):
+    """put edge data on the operation's edge between local corners c1, c2 (direction-independent kinds only)"""
+    lo, hi = min(c1, c2), max(c1, c2)
+    if hi < 4:
+        op.bottom_face.add_edge(3 if (lo, hi) == (0, 3) else lo, data)
+    elif lo >= 4:
+        op.top_face.add_edge(3 if (lo, hi) == (4, 7) else lo - 4, data)
+    else:
+        op.add_side_edge(lo, data)
+
+
 def build_ops(case, cb):
-    """classy_blocks operations for the case, in insertion order (the real library)"""
+    """classy_blocks operations for the case, in insertion order (the real library).
+    case["arcs"] (optional): {"n1-n2": third point} circular-arc edges on lattice edges, defined by every block that uses them"""
     ops = []
+    arcs = case.get("arcs") or {}
     for blk in case["blocks"]:
         pts = np.array(blk["pts"], dtype=float)
         op = cb.Loft(cb.Face(pts[:4]), cb.Face(pts[4:]))
+        for e in hexconv.EDGES:
+            key = "-".join(str(n) for n in sorted((blk["nodes"][e[0]], blk["nodes"][e[1]])))
+            if key in arcs:
+                set_edge(op, e[0], e[1], cb.Arc(list(arcs[key])))
         for axis, kw in blk["chops"]:
             op.chop(axis, **kw)
         ops.append(op)
